@@ -10,6 +10,21 @@ NOTE = ("Trusted: Coq 8.16.1 kernel (no axioms: every property theorem prints 'C
         "The theorems are about the hand-written Gallina model; the model is tied to /repo on every run by the table "
         "translator and by the differential correspondence run, which bounds what has been exercised.")
 CLAIMED = {
+    "C05": dict(
+        text="14 theorems against an independent specification of YAML 1.2.2 section 8.1 (Spec/BlockScalar.v: line model, content "
+             "indentation, classification, block_value, a renderer; imports nothing from the model; the spec's examples 8.2-8.13 are "
+             "Examples). For the scanner model over the string input and ALL inputs of the stated class: the content-line reader appends "
+             "exactly the line text through both the buffered and the raw path; skip_spaces_to / skip_block_scalar_indent (narrow and "
+             "wide path) / first-line auto-detection consume min(k, indent) spaces and count blank lines; C05_block_scalar_partial: "
+             "scan_block_scalar returns block_value for literal and folded style, the three chompings, explicit (1-9, either indicator "
+             "order) or auto-detected indentation incl. 0, any header tail, all line lists with at least one content line, LF breaks, "
+             "followed by a less-indented line, end of input or '...'; the same when the input ends right after the last content line; "
+             "and for content-less scalars. The full statement C05_full (all shapes, contexts, back-ends) is stated and machine-REFUTED "
+             "by the recorded findings. Not theorems: CR/CRLF breaks, buffered back-ends. Oracle/tie: 30k (thorough 600k) generated cases "
+             "(style x chomping x indentation x context x header tail x break style x end shape x line content) - every scalar of the "
+             "stream must equal the extracted spec's value on str, iterator and capacity-8 inputs; model vs implementation on three "
+             "back-ends. Known findings: clip/keep at end of input after a last line of spaces only; '---' inside a zero-indented scalar.",
+        ref="DESIGN.md 5/C05", tech="Rocq proof (scan_block_scalar = independent block_value spec, LF inputs with content, string input) + extracted spec as oracle on implementation + differential correspondence; CR/CRLF and buffered partial"),
     "C06": dict(
         text="42 theorems. Parser layer, for EVERY token stream: an accepted stream is bracket-balanced (second invariant Good/first_ok "
              "carried through all 21 parser states next to C02's Inv) modulo the one recorded swallowed-closer rule, so no accepted stream "
